@@ -322,6 +322,45 @@ def subscriber_send_scripts(ck, tier: str) -> None:
     ck.extra["subscriber_send_scripts"] = n
 
 
+def partial_input_scripts(ck, tier: str) -> None:
+    """C07: the peer goes away in the middle of a frame (inside the header, inside the payload, between the two
+    check bytes, one byte before the end), by EOF or by reset, possibly after whole frames; judged by the healing
+    monitor.  (Bytes that follow an unfinished frame on the same connection are its continuation: no claim.)"""
+    rng = random.Random(ck.seed * 991 + 7)
+    n = 0
+    for gen in (4, 5):
+        hdr = 8 if gen == 4 else 20
+        frames = sockrun.rx_catalogue(gen)
+        for i in range(80 if tier == "quick" else 2000):
+            j = rng.randrange(len(frames))
+            ln = len(frames[j])
+            cut = [1, hdr - 1, hdr, hdr + 1, ln - 2, ln - 1, rng.randrange(1, ln)][i % 7]
+            script = [("open",), ("adv", 1)]
+            if rng.random() < 0.4:
+                script.append(("frame", rng.randrange(len(frames))))
+            script.append(("trunc", j, cut))
+            if rng.random() < 0.3:
+                script.append(("adv", rng.choice([1, 1500])))
+            script.append(rng.choice([("eof",), ("eof",), ("rst",)]))
+            script += PROBE
+            pid0, out = sockcorr.run_impl(gen, script)
+            n += 1
+            ck.count()
+            if any(evs == [("tie",)] for evs in out) or len(out) != len(script):
+                continue
+            d_ok, w_ok = probe_ok(out)
+            bad = [e for evs in out for e in evs if e[0] in ("unhandled", "crash")]
+            if not d_ok or not w_ok or bad:
+                ck.violation("the client did not heal after the peer went away in the middle of a frame",
+                             {"kind": "socket-script-partial-input", "gen": gen, "script": [list(x) for x in script],
+                              "impl_trace": [[list(e) for e in evs] for evs in out],
+                              "monitor": [f"probe frame delivered: {d_ok}", f"probe command written: {w_ok}", f"errors: {bad}"],
+                              "trigger": {"class": "partial-input"},
+                              "replay_cmd": f"cd /verif && PYTHONPATH=/repo:/verif /venv/bin/python -m harness.sockrun {gen} '{sockcorr.fmt(script)}'"})
+                break
+    ck.extra["partial_input_scripts"] = n
+
+
 # ---------------------------------------------------------------------------- scripts
 def gen_scripts(prop: str, tier: str, rng: random.Random, gen: int):
     scripts = []
@@ -486,6 +525,7 @@ def run_check(prop: str, tier: str, replay: str | None) -> int:
         check_backpressure.run(ck, prop, tier)
     if prop == "C07":
         subscriber_send_scripts(ck, tier)
+        partial_input_scripts(ck, tier)
     if prop == "C15":
         from . import check_lifecycle
         check_lifecycle.run(ck, tier)
